@@ -79,8 +79,10 @@ class AbsPDF:
     def temp_params(self, var):
         params = self.get_params()
         self.set_params(var)
-        yield var
-        self.set_params(params)
+        try:
+            yield var
+        finally:
+            self.set_params(params)
 
     @contextlib.contextmanager
     def mask_params(self, var):
@@ -191,9 +193,11 @@ class BaseAmplitudeModel(AbsPDF):
         old_mask = [getattr(i, "mask_factor", False) for i in mask_part]
         for i in mask_part:
             i.mask_factor = True
-        yield
-        for i, j in zip(mask_part, old_mask):
-            i.mask_factor = j
+        try:
+            yield
+        finally:
+            for i, j in zip(mask_part, old_mask):
+                i.mask_factor = j
 
 
 @register_amp_model("default")
